@@ -321,6 +321,28 @@ def execute(case: dict) -> dict:
             await anyio.sleep(0.002)
 
         await anyio.sleep(0.002)
+        # pool state at quiescence (the property's anchor): every live worker of this loop
+        # is back in the idle deque once no function is running any more
+        if not mon.running:
+            t0 = time.monotonic()
+            while True:
+                try:
+                    workers = set(A._threadpool_workers.get())
+                    idle = list(A._threadpool_idle_workers.get())
+                except LookupError:
+                    workers, idle = set(), []
+
+                busy = [w for w in workers if w not in idle and w.is_alive()]
+                if not busy or time.monotonic() - t0 > 1.5:
+                    break
+
+                await anyio.sleep(0.002)
+
+            window("pool_state_checked_at_quiescence")
+            if busy:
+                viol.append(("worker-thread-not-returned-to-the-idle-pool",
+                             {"workers": len(workers), "idle": len(idle), "stranded": len(busy)}))  # fmt: skip
+
         st = limiter.statistics()
         if limiter.borrowed_tokens != 0 or st.tasks_waiting != 0:
             viol.append(("token-not-returned", {"borrowed": limiter.borrowed_tokens,
